@@ -10,6 +10,7 @@
 import Influx.Lemmas.WindowAggFolders
 import Influx.Lemmas.WindowAggFirst
 import Influx.Lemmas.WindowAggLast
+import Influx.Model.WindowAggReq
 
 namespace Influx.Props.C20
 open Influx.WindowAgg Influx.Spec.C20
@@ -258,6 +259,99 @@ theorem C20_holdsOn [DecidableEq α] (B : Nat) (hB : 1 ≤ B) (o : Ops α) (agg 
         simp only [holdsOn, h1, h2, hfl', hw3, decide_true]
       · obtain ⟨arrs, h1, h2, _⟩ := C20_last B hB o w hw2 hwz _ hne (by rw [hfl']; exact hs) fuel (by rw [hfl']; omega)
         simp only [holdsOn, h1, h2, hfl', hw3, decide_true]
+
+/-! ### the direction decision (translated code) -/
+
+open Influx.Generated.WAReq in
+/-- **Exact characterisation of `IsLastDescendingAggregateOptimization`** (the function is
+    regenerated from aggregate_resultset.go on every run): descending cursors are requested
+    exactly for a single `last` aggregate whose window is "no window". -/
+theorem isLastDesc_iff (req : WAReq.Req) :
+    IsLastDescendingAggregateOptimization req = true ↔
+      (req.Aggregate = [Aggregate_AggregateTypeLast] ∧
+        match req.Window with
+        | none => req.WindowEvery = 0 ∨ req.WindowEvery = 9223372036854775807
+        | some w => (w.Every.Nsecs = 0 ∧ w.Every.Months = 0) ∨ w.Every.Nsecs = 9223372036854775807) := by
+  obtain ⟨aggs, we, off, win⟩ := req
+  unfold IsLastDescendingAggregateOptimization
+  rcases aggs with _ | ⟨a, _ | ⟨b, rest⟩⟩
+  · simp
+  · cases win with
+    | none =>
+      by_cases ha : a = Aggregate_AggregateTypeLast <;>
+        simp [WAReq.Req.agg0, ha]
+    | some w =>
+      by_cases ha : a = Aggregate_AggregateTypeLast <;>
+        simp [WAReq.Req.agg0, WAReq.Req.everyNsecs, WAReq.Req.everyMonths, ha]
+  · simp
+
+open Influx.Generated.WAReq in
+/-- **The descending optimisation is never chosen for a calendar window** (months only:
+    `Nsecs = 0`, `Months ≠ 0`): such a request keeps ascending cursors, which is what the
+    windowed `last` cursor built by `createCursor` needs. -/
+theorem C20_desc_never_calendar (aggs : List Int) (we off : Int) (w : WAReq.WinMsg)
+    (h0 : w.Every.Nsecs = 0) (hm : w.Every.Months ≠ 0) :
+    IsLastDescendingAggregateOptimization ⟨aggs, we, off, some w⟩ = false := by
+  apply Bool.eq_false_iff.mpr
+  intro h
+  have := ((isLastDesc_iff _).mp h).2
+  simp only at this
+  rcases this with ⟨_, h2⟩ | h2
+  · exact hm h2
+  · rw [h0] at h2; cases h2
+
+open Influx.Generated.WAReq in
+/-- the direction decision and the cursor factory agree on "no window" for the legacy
+    request form: descending exactly when the model's `Cursor.newReq` reverses the input -/
+theorem C20_desc_agrees (agg : Agg) (every offset : Int) (w : Win) (hw : reqWin every offset = some w) :
+    IsLastDescendingAggregateOptimization (reqLegacy agg every offset) = (decide (agg = .last) && w.isZero) := by
+  unfold reqWin at hw
+  by_cases he : every ≤ 0
+  · simp [he] at hw
+  · simp only [he, ↓reduceIte] at hw
+    have hcode : (agg.code = Aggregate_AggregateTypeLast) ↔ agg = .last := by
+      cases agg <;> simp [Agg.code, Aggregate_AggregateTypeLast, Aggregate_AggregateTypeCount,
+        Aggregate_AggregateTypeSum, Aggregate_AggregateTypeMin, Aggregate_AggregateTypeMax,
+        Aggregate_AggregateTypeMean, Aggregate_AggregateTypeFirst]
+    by_cases hm : every = maxInt64
+    · simp only [hm, ↓reduceIte, Option.some.injEq] at hw
+      subst hw
+      by_cases ha : agg = .last
+      · have := (isLastDesc_iff (reqLegacy agg every offset)).mpr
+          ⟨by simp [reqLegacy, hcode.mpr ha], by simp [reqLegacy, hm, maxInt64]⟩
+        simp [this, ha, Win.zero]
+      · have : IsLastDescendingAggregateOptimization (reqLegacy agg every offset) = false := by
+          apply Bool.eq_false_iff.mpr
+          intro h
+          have := ((isLastDesc_iff _).mp h).1
+          simp only [reqLegacy, List.cons.injEq, and_true] at this
+          exact ha (hcode.mp this)
+        simp [this, ha]
+    · simp only [hm, ↓reduceIte, Option.some.injEq] at hw
+      subst hw
+      have : IsLastDescendingAggregateOptimization (reqLegacy agg every offset) = false := by
+        apply Bool.eq_false_iff.mpr
+        intro h
+        have := ((isLastDesc_iff _).mp h).2
+        simp only [reqLegacy] at this
+        rcases this with h1 | h1
+        · omega
+        · exact hm h1
+      simp [this, Win.ofWindow]
+
+theorem newReqD_eq_newReq (agg : Agg) (w : Win) (shards : List (List (List (Pt α)))) :
+    Cursor.newReqD (decide (agg = .last) && w.isZero) agg w shards = Cursor.newReq agg w shards := by
+  unfold Cursor.newReqD Cursor.newReq
+  by_cases h : agg = .last ∧ w.isZero = true
+  · simp [h.1, h.2]
+  · have : (decide (agg = .last) && w.isZero) = false := by
+      rw [Bool.and_eq_false_iff]
+      by_cases ha : agg = .last
+      · right; simpa using fun hz => h ⟨ha, hz⟩
+      · left; simp [ha]
+    rw [this]
+    simp only [Bool.false_eq_true, ↓reduceIte]
+    rw [if_neg h]
 
 -- non-vacuity: a concrete request (3 windows of `every = 10`, two shards, three arrays, B = 2)
 example : ∃ w, reqWin 10 3 = some w ∧
